@@ -53,8 +53,9 @@ static const struct path_alt paths[] = {
     {"'a/b'(one segment)", 1, {"a/b"}},
     {"'\\xc3\\xa4'", 1, {"\xc3\xa4"}},
     {"zz", 1, {"zz"}},
+    {"'t:n@x'", 1, {"t:n@x"}}, /* sub-delimiters that need no escaping in a path segment (RFC 3986 pchar) */
 };
-#define N_PATHS 9
+#define N_PATHS 10
 
 /* option items; an item contributes one or two options */
 struct item {
@@ -148,22 +149,22 @@ struct table {
 #define RES2(s0, s1, m, b, mcf, obs) {.nseg = 2, .seg = {s0, s1}, .methods = (m), .behaviour = (b), .mc = (mcf), .observable = (obs)}
 #define RICH                                                                                                           \
   RES1("a", ALL, RS_B_CONTENT, 0, 0), RES2("a", "b", ALL, RS_B_NOCODE, 0, 0), RES2("a", "", ALL, RS_B_404, 0, 0),      \
-      RES1("\xc3\xa4", ALL, RS_B_INVALID, 0, 0)
+      RES1("\xc3\xa4", ALL, RS_B_INVALID, 0, 0), RES1("t:n@x", ALL, RS_B_CONTENT, 0, 0)
 
 static struct table tables[] = {
     {"empty", {.builtin_wkc = 1}, 0},
     {"a:GET", {.builtin_wkc = 1, .nres = 1, .res = {RES1("a", GET, RS_B_CONTENT, 0, 0)}}, 0},
-    {"rich(a:all:2.05,a/b:all:code0,a/'':all:4.04,ae:all:1.00)", {.builtin_wkc = 1, .nres = 4, .res = {RICH}}, 0},
+    {"rich(a:all:2.05,a/b:all:code0,a/'':all:4.04,ae:all:1.00)", {.builtin_wkc = 1, .nres = 5, .res = {RICH}}, 0},
     {"a:GET+unknown:PUT",
      {.builtin_wkc = 1, .nres = 1, .res = {RES1("a", GET, RS_B_CONTENT, 0, 0)}, .has_unknown = 1, .unknown = {.methods = PUT, .behaviour = RS_B_CONTENT}},
      0},
-    {"rich+unknown:all", {.builtin_wkc = 1, .nres = 4, .res = {RICH}, .has_unknown = 1, .unknown = {.methods = ALL, .behaviour = RS_B_CONTENT}}, 0},
+    {"rich+unknown:all", {.builtin_wkc = 1, .nres = 5, .res = {RICH}, .has_unknown = 1, .unknown = {.methods = ALL, .behaviour = RS_B_CONTENT}}, 0},
     {"rich+proxy(names=h)",
-     {.builtin_wkc = 1, .nres = 4, .res = {RICH}, .has_proxy = 1, .proxy = {.methods = ALL, .behaviour = RS_B_CONTENT}, .nproxy_names = 1, .proxy_names = {"h"}},
+     {.builtin_wkc = 1, .nres = 5, .res = {RICH}, .has_proxy = 1, .proxy = {.methods = ALL, .behaviour = RS_B_CONTENT}, .nproxy_names = 1, .proxy_names = {"h"}},
      0},
     {"rich+proxy(names=other)+unknown:PUT",
      {.builtin_wkc = 1,
-      .nres = 4,
+      .nres = 5,
       .res = {RICH},
       .has_proxy = 1,
       .proxy = {.methods = ALL, .behaviour = RS_B_CONTENT},
